@@ -224,6 +224,15 @@ func (l *Lexer) readDigit(tok *token.Token) {
 
 func (l *Lexer) readFloat(hasReadExponentAlready bool, tok *token.Token) {
 
+	if hasReadExponentAlready {
+		// ExponentPart is ExponentIndicator Sign? Digit+ : the sign follows the indicator directly,
+		// also when the number has no fractional part (1e+5)
+		optionalPlusMinus := l.peekRune(false)
+		if optionalPlusMinus == runes.SUB || optionalPlusMinus == runes.ADD {
+			l.readRune()
+		}
+	}
+
 	var r byte
 	for {
 		r = l.peekRune(false)
